@@ -118,6 +118,11 @@ def restore_violations(case, obs):
             out.append((f"leak:{ts}:{what}:pending", f"trial {k}: {a['ctx']}"))
         if a["ctx"]["nexch"] != b["ctx"]["nexch"]:
             out.append((f"leak:{ts}:{what}:particle-count", f"trial {k}: {a['ctx']}"))
+        if b.get("ke_reference_current") and a.get("ke_reference_current") is False and o == "F":
+            # after a REJECTED trial (a vetoed one never reaches revert_state) the kinetic reference is the kinetic energy of
+            # the restored momenta again — the abandoned trajectory's is gone
+            out.append((f"leak:{ts}:{what}:kinetic-reference",
+                        f"trial {k}: last_kinetic_energy is not the kinetic energy of the restored momenta"))
     return out
 
 
